@@ -254,6 +254,7 @@ func (r *Runner) exec(a Action) {
 		}
 		r.Clients[a.Conn] = c
 		r.Views[a.Conn] = model.NewView(a.Conn)
+		r.Views[a.Conn].Mods = r.Cfg.Mods
 		if a.NoFlags {
 			r.M.AddConn(a.Conn, r.Cfg.Mods, nil)
 		} else {
@@ -802,6 +803,40 @@ func (r *Runner) finalChecks() {
 		}
 	}
 }
+
+// RunPrefix executes the generated history without the final checks and
+// leaves the connections open (concurrent blocks continue from there). The
+// caller must call CloseAll.
+func (r *Runner) RunPrefix() {
+	if ms, err := r.P.Metrics(); err == nil {
+		r.baseSessions = ms["session_count"]
+		r.baseClients = ms["ws_connected_clients"]
+	}
+	r.G.Groups = r.Cfg.Groups
+	r.created = map[[2]int]string{}
+	r.sidRef = map[string][2]int{}
+	r.Rec = map[int]map[int][]string{}
+	for step := 0; step < r.Cfg.Steps && r.Fail == nil && r.Inconclusive == ""; step++ {
+		if !r.P.Alive() {
+			r.fail(model.Violation{Props: []string{"C08", "C09"}, Clause: "process/exited", Detail: "the server process ended: " + r.P.ExitInfo()}, r.P.CrashHead(5000))
+			return
+		}
+		a := r.G.Next()
+		a.Step, r.stepNo = step, step
+		r.Stats.Steps++
+		r.Stats.Kinds[a.Kind]++
+		r.exec(a)
+	}
+	if r.Fail == nil && r.Inconclusive == "" {
+		r.checkpoint()
+	}
+}
+
+// CloseAll closes every connection and waits for the handlers to return.
+func (r *Runner) CloseAll() { r.closeAll() }
+
+// Checkpoint runs the quiescent-state comparison (views, gauges).
+func (r *Runner) Checkpoint() { r.checkpoint() }
 
 func (r *Runner) closeAll() {
 	for _, c := range r.Clients {
